@@ -263,10 +263,13 @@ func (r *Result) Finish(verifDir string, findings []Finding, seed int64) int {
 		f := known[o.Key()]
 		fmt.Printf("KNOWN-FINDING: property=%s rule=%s construct=%s at %s: %s\n", r.Prop, o.Rule, o.Construct, o.Where, f.Text)
 	}
+	// A control that does not fire says something about the checker, not about /repo: it is
+	// reported (evidence: controls, controls_fired/controls_total; a CONTROL-MISSED line) but
+	// never turned into a violation of the property on the analysed tree.
 	for _, c := range r.Controls {
 		if c.Status == "missed" {
-			viol = append(viol, Obligation{Rule: "control", Construct: c.Name, Verdict: Undecided,
-				Detail: "positive control did not fire: the rule no longer detects the breakage it was built for: " + c.Detail})
+			fmt.Printf("CONTROL-MISSED: property=%s control=%s: %s\n", r.Prop, c.Name, c.Detail)
+			r.Notes = append(r.Notes, "positive control "+c.Name+" did not fire: "+c.Detail)
 		}
 	}
 	replay := filepath.Join(evDir, r.Prop+".violations.json")
